@@ -62,7 +62,7 @@ namespace awkward {
       .append("0 ").append(vm_output_data_).append(" <- stack").append("\n");
 
     vm_error_.append(content_.get()->vm_error());
-    vm_error_.append("s\"ListArray Builder needs begin_list\"").append("\n");
+    vm_error_.append("s\" ListArray Builder needs begin_list\"").append("\n");
  }
 
   const std::string
@@ -184,16 +184,11 @@ namespace awkward {
   void
   ListArrayBuilder::begin_list(LayoutBuilder* builder) {
     if (!begun_) {
-      throw std::invalid_argument(
-        std::string("called 'end_list' without 'begin_list' at the same level before it")
-        + FILENAME(__LINE__));
-    }
-    else if (!content_.get()->active()) {
-      builder->add_end_list();
-      begun_ = false;
+      begun_ = true;
+      builder->add_begin_list();
     }
     else {
-      content_.get()->end_list(builder);
+      content_.get()->begin_list(builder);
     }
   }
 
